@@ -56,7 +56,13 @@ def snapshot_cycle(w, gwy, t: E.Tally, rep: dict, where: str, include_expired: b
 
 def restore_race(lines: list, upto: int, eav: bool, t: E.Tally, rep: dict, where: str, quick: bool) -> None:
     """A snapshot requested while a restore is in flight: at every loop iteration k of the restore, get_state() is
-    called (it may refuse); when the restore has finished the gateway must be running."""
+    called (it may refuse); when the restore has finished the gateway must be running.  Likewise a restore that is
+    abandoned (its task cancelled) at every iteration k: an operation that did not succeed must leave the gateway running."""
+    _restore_interrupted(lines, upto, eav, t, rep, where, quick, "snapshot")
+    _restore_interrupted(lines, upto, eav, t, rep, where, quick, "cancel")
+
+
+def _restore_interrupted(lines: list, upto: int, eav: bool, t: E.Tally, rep: dict, where: str, quick: bool, action: str) -> None:
     k = 0
     while k < 3000:
         w, gwy = GC.new_world(eavesdrop=eav)
@@ -76,6 +82,17 @@ def restore_race(lines: list, upto: int, eav: bool, t: E.Tally, rep: dict, where
                     w.loop.fire_due(nt)
                 n += 1
             mid = None
+            if not task.done() and action == "cancel":
+                task.cancel()
+                mid = "cancelled"
+                w.loop.quiesce(w.loop.time() + 30)
+                t.n += 1
+                bad = GC.engine_ok(w, gwy)
+                if bad:
+                    t.bad(f"C13:not-running-after-abandoned-restore:{bad[0]}", f"{where}: restore cancelled at its loop iteration {k}; afterwards: {bad}", rep)
+                    return
+                k += 1 if not quick else 2
+                continue
             if not task.done():
                 try:
                     gwy.get_state()
